@@ -340,38 +340,50 @@ def check_unimplemented_variants(ctx, rid):
         if do is None:
             continue
         dparam = do.posparams[1]
-        pm = prog.parents(do)
-        for r in [x for x in do.own_nodes() if isinstance(x, ast.Raise) and raises_class(x) == "NotImplementedError"]:
-            # the innermost if-test that guards the raise
-            cur, test = r, None
-            while id(cur) in pm:
-                par = pm[id(cur)]
-                if isinstance(par, ast.If) and cur in par.body:
-                    test = par.test
-                    break
-                cur = par
-            if not (isinstance(test, ast.Compare) and len(test.ops) == 1 and isinstance(test.ops[0], ast.Eq) and isinstance(test.left, ast.Name) and isinstance(test.comparators[0], ast.Constant)):
-                raise AnalysisError(f"{do.qualname}: `raise NotImplementedError` at line {r.lineno} is not guarded by `<name> == <constant>`")
-            var, value = test.left.id, test.comparators[0].value
-            defs = [x for x in do.own_nodes() if isinstance(x, ast.Assign) and len(x.targets) == 1 and isinstance(x.targets[0], ast.Name) and x.targets[0].id == var]
-            if len(defs) != 1:
-                raise AnalysisError(f"{do.qualname}: `{var}` has {len(defs)} definitions")
-            src = defs[0].value
-            fields = {name: None for name in iocls.fields}
-            fields["extra"] = {}
+        raises_ni = [x for x in do.own_nodes() if isinstance(x, ast.Raise) and raises_class(x) == "NotImplementedError"]
+        if not raises_ni:
+            continue
+        # selectors: values the writer takes from the object (`data.extra["key"]`, `data.extra.get("key")`, `data.attr`)
+        # and keeps in a local; candidates: the string constants of the writer.  Which (selector, value) pairs end in
+        # NotImplementedError is found by evaluating the writer with everything it calls replaced by no-ops -- whether
+        # it dispatches with if / elif, a table or a loop.
+        selectors = []
+        for x in do.own_nodes():
+            if not (isinstance(x, ast.Assign) and len(x.targets) == 1 and isinstance(x.targets[0], ast.Name)):
+                continue
+            src = x.value
             if isinstance(src, ast.Subscript) and isinstance(src.value, ast.Attribute) and isinstance(src.value.value, ast.Name) and src.value.value.id == dparam and isinstance(src.slice, ast.Constant):
-                holder = src.value.attr
-                fields[holder] = {src.slice.value: value}
-                what = f"{dparam}.{holder}[{src.slice.value!r}] == {value!r}"
+                selectors.append((src.value.attr, src.slice.value))
             elif isinstance(src, ast.Call) and isinstance(src.func, ast.Attribute) and src.func.attr == "get" and isinstance(src.func.value, ast.Attribute) and isinstance(src.func.value.value, ast.Name) and src.func.value.value.id == dparam and src.args and isinstance(src.args[0], ast.Constant):
-                holder = src.func.value.attr
-                fields[holder] = {src.args[0].value: value}
-                what = f"{dparam}.{holder}[{src.args[0].value!r}] == {value!r}"
+                selectors.append((src.func.value.attr, src.args[0].value))
             elif isinstance(src, ast.Attribute) and isinstance(src.value, ast.Name) and src.value.id == dparam:
-                fields[src.attr] = value
-                what = f"{dparam}.{src.attr} == {value!r}"
-            else:
-                raise AnalysisError(f"{do.qualname}: `{var} = {src_of(src)}` is not a value taken from the object")
+                selectors.append((src.attr, None))
+        consts = sorted({c.value for c in ast.walk(do.node) if isinstance(c, ast.Constant) and isinstance(c.value, str) and c.value and len(c.value) < 40 and " " not in c.value})
+        found = []
+        for holder, key in selectors:
+            for value in consts:
+                fields = {name: None for name in iocls.fields}
+                fields["extra"] = {}
+                if key is None:
+                    fields[holder] = value
+                else:
+                    fields[holder] = {key: value}
+                ev0 = AccessorEval(prog, iocls, limit=4000)
+                ev0.module = do.module
+                ev0.stubs = {h.qualname: (lambda a_, k_: {}) for h in prog.package_funcs() if h.module is do.module and h is not do and h.parent is None}
+                ev0.ext_stubs = {"json.dump": lambda a_, k_: None}
+                try:
+                    ev0.run_free(do, [Rec(None), Rec(iocls, **fields)], {})
+                except Raised as exc:
+                    if exc.args[0] == "NotImplementedError":
+                        what = f"{dparam}.{holder}[{key!r}] == {value!r}" if key is not None else f"{dparam}.{holder} == {value!r}"
+                        found.append((holder, key, value, fields, what))
+                except NotSymbolic:
+                    continue
+        if not found:
+            raise AnalysisError(f"{do.qualname}: `raise NotImplementedError` at line {raises_ni[0].lineno}: no value taken from the object was found that leads to it")
+        for holder, key, value, fields, what in found:
+            r = raises_ni[0]
             n += 1
             if pd is None:
                 ctx.violate(rid, f"{short}.dump_one raises NotImplementedError for {what}, and the module has no prepare_dump to reject it before the file is opened", do, r)
